@@ -1124,6 +1124,19 @@ func RetrieveCheckpoint(ctx context.Context, peers []string, index types.ChainIn
 					ConnAddr: conn.RemoteAddr().String(),
 					Inbound:  false,
 				}
+				// the remote node treats us as a regular peer and may open
+				// streams of its own (SendHeaders, ShareNodes); the mux delivers
+				// frames in order, so an unread inbound stream would block our
+				// response: accept and discard them
+				go func() {
+					for {
+						s, err := t.AcceptStream()
+						if err != nil {
+							return
+						}
+						s.Close()
+					}
+				}()
 				cs, b, err := p.SendCheckpoint(index, n, 30*time.Second)
 				sendResult(resp{state: cs, block: b, err: err})
 			}(ctx, addr)
